@@ -133,7 +133,7 @@ def _sig(args, kwonly):
     return ", ".join(pos + (["*"] + kw if kw else []))
 
 
-def mkfunc(name: str, args: list[str], body, stochastic: bool = False, ints: bool = True, stacked: bool = False, kwonly=None):
+def mkfunc(name: str, args: list[str], body, stochastic: bool = False, ints: bool = True, stacked: bool = False, kwonly=None, narrow=None):
     """The same source text gives the same function *object* within a process - as for a user who defines the model
     functions once at module level and uses them in several specifications (what a cache keyed on function objects
     inside the library would see)."""
@@ -143,6 +143,10 @@ def mkfunc(name: str, args: list[str], body, stochastic: bool = False, ints: boo
         # the same scalar function written with a reduction over a small stacked vector: legal for lcm (model functions are
         # evaluated on scalars under vmap), but not broadcast-safe - calling it on whole columns gives one number
         code = f"def {name}({_sig(args, kwonly)}):\n    return jnp.array([{src(body[1], ints)}, {src(body[2], ints)}]).sum()\n"
+    if narrow:
+        # the function returns its (integer) result in a narrow dtype, e.g. a transition written with `.astype(jnp.int8)` or a
+        # lookup in a table that came from pandas categorical codes
+        code = f"def {name}({_sig(args, kwonly)}):\n    return jnp.asarray({src(body, ints)}).astype(jnp.{narrow})\n"
     if stacked and isinstance(body, list) and body and body[0] in ("or", "and"):
         # a boolean function written with a reduction over a small stacked vector (`jnp.any(jnp.array([...]))`): correct
         # for the scalars lcm evaluates model functions on, not for whole grids
@@ -215,7 +219,7 @@ def build_model(mj: dict):
     impl()
     from lcm import Model
 
-    made = {f["name"]: mkfunc(f["name"], f["args"], f["body"], f.get("stochastic", False), f.get("ints", True), f.get("stacked", False), f.get("kwonly"))
+    made = {f["name"]: mkfunc(f["name"], f["args"], f["body"], f.get("stochastic", False), f.get("ints", True), f.get("stacked", False), f.get("kwonly"), f.get("narrow"))
             for f in mj["functions"] if not f.get("same_as")}
     for f in mj["functions"]:
         if f.get("affine_wrap"):
